@@ -8,8 +8,12 @@ call is logged by the item itself; BoundedComparator.__lt__ is wrapped to log (a
 graphtage.bounds.IntervalTree is replaced by a subclass that logs remove(); graphtage.search.FibonacciHeap by a
 subclass that logs heap._min after pop().  These logs are the adversary inputs of the Gallina model.
 
-No verdict is computed here: `holds_C17` (SearchSpec.v) and `corr_C17` (SearchModel.v) are evaluated with
-vm_compute; Python generates, drives, serialises and counts.
+bounds.sort: the Fibonacci heap is modelled in full (SortModel.v: the C16 structure model over a comparison oracle
+with state); the model logs every key comparison and pop, and `corr_sort` demands that the implementation's
+sequence of comparisons/pops, its tighten_bounds() calls and its output all equal the model's (lock-step).
+
+No verdict is computed here: `holds_C17` (SearchSpec.v) and `corr_C17_full` (SearchModel.v, SortModel.v) are
+evaluated with vm_compute; Python generates, drives, serialises and counts.
 """
 import itertools
 import json
@@ -21,11 +25,12 @@ import time
 from harness import common
 
 PROP = 'C17'
-THEOREMS = ['C17_lt', 'C17_le', 'C17_min', 'C17_sort_partial', 'C17_distinct', 'C17_search']
-MODELS = ['theories/SearchModel.vo']
+THEOREMS = ['C17_lt', 'C17_le', 'C17_min', 'C17_sort', 'C17_heap_oracle', 'C17_sort_corr', 'C17_sort_trace',
+            'C17_distinct', 'C17_search', 'C17_search_first_node']
+MODELS = ['theories/SearchModel.vo', 'theories/SortModel.vo']
 HEADER = ('From Coq Require Import List Bool ZArith.\nRequire Import GT.PyBase GT.BoundsSpec GT.SearchSpec.\n'
           'Import ListNotations.\nOpen Scope Z_scope.\n')
-MODEL_HEADER = 'Require Import GT.SearchModel.\n'
+MODEL_HEADER = 'Require Import GT.SearchModel GT.SortModel.\n'
 OPS = {'lt': 'OpLt', 'le': 'OpLe', 'min': 'OpMin', 'sort': 'OpSort', 'distinct': 'OpDistinct', 'search': 'OpSearch'}
 GUARD_S = 3.0       # wall-clock guard per case (non-termination); a case normally takes well under 10 ms
 MAX_GUARD_HITS = 4  # per worker process: afterwards the remaining cases of that worker are not run (reported as skipped)
@@ -435,7 +440,7 @@ def run_cases(run, wd, cases, st, tag):
     evals = ['bad_cases holds_C17', 'bad_cases in_domain']
     header = HEADER
     if st['models_ok']:
-        evals.append('bad_cases corr_C17')
+        evals.append('bad_cases corr_C17_full')
         header += MODEL_HEADER
     chunk = max(20, min(400, -(-len(terms) // (2 * common.NPROC))))
     bad, err = common.coq_eval_cases(wd, 'cases_' + tag, header, terms, evals, chunk=chunk)
@@ -449,9 +454,12 @@ def run_cases(run, wd, cases, st, tag):
 
 
 def model_answer(wd, c, r):
-    vals, err = common.coq_eval_terms(wd, 'model_answer', HEADER + MODEL_HEADER,
-                                      [f'match model_run {case_term(c, r)} with Done (o, m) => Some (o, rev (evs m)) | _ => None end'])
-    return vals[0] if vals else f'(evaluation failed: {err})'
+    t = case_term(c, r)
+    terms = [f'match model_run {t} with Done (o, m) => Some (o, rev (evs m)) | _ => None end']
+    if c['op'] == 'sort':
+        terms.append(f'sort_answer {t}')       # full heap model: output, tighten calls, comparisons and pops
+    vals, err = common.coq_eval_terms(wd, 'model_answer', HEADER + MODEL_HEADER, terms)
+    return ' ;; '.join(vals) if vals else f'(evaluation failed: {err})'
 
 
 def replay_obj(c, r, why):
@@ -526,7 +534,7 @@ def check(tier, seed):
                 else:
                     c, r = first_corr
                     run.violation(dict(replay_obj(c, r, 'correspondence-broken'),
-                                       what='corr_C17: the implementation\'s events/result differ from the model\'s',
+                                       what='corr_C17_full: the implementation\'s events/result (sort: also its heap comparisons/pops) differ from the model\'s',
                                        model=model_answer(wd, c, r), n_cases=len(bad_corr)), no_input=True)
         for f in kf_keys.values():
             if f['hits']:
@@ -555,9 +563,10 @@ def check(tier, seed):
                            'convergence, unit-step long schedules, stutter steps, infinite first ranges); non-trivial = at least '
                            'two items and one of them not definitive; distinct by (operation, schedules)')
         run.cov['samples'] = [{'op': c['op'], 'items': c['items']} for c, _ in out['keep'][3000:3003]]
-        run.assumptions = ['the Fibonacci heap inside bounds.sort is a validated oracle (its comparisons and pops are observed; '
-                           'a pop is accepted only if justified by earlier comparison outcomes); inside the search it is the '
-                           'specification "heap._min has a minimal key", the choice among minimal keys observed',
+        run.assumptions = ['bounds.sort: no oracle except the id() order - the Fibonacci heap is modelled in full and proved '
+                           '(C17_sort, C17_heap_oracle); its comparisons and pops are compared with the model in lock-step; '
+                           'inside IterativeTighteningSearch the heap is the specification "heap._min has a minimal key", '
+                           'the choice among minimal keys observed',
                            'id() order of BoundedComparator objects and iteration order of the interval tree are observed adversary inputs',
                            'initial_bounds is the default Range(-inf, +inf)']
         return run.finish()
@@ -576,7 +585,7 @@ def replay(path):
         if not r or 'ok' not in r:
             print(f'VIOLATION property={PROP} replay={path}')
             return 1
-        evals = ['bad_cases holds_C17'] + (['bad_cases corr_C17'] if st['models_ok'] else [])
+        evals = ['bad_cases holds_C17'] + (['bad_cases corr_C17_full'] if st['models_ok'] else [])
         b, err = common.coq_eval_cases(wd, 'replay', HEADER + (MODEL_HEADER if st['models_ok'] else ''),
                                        [case_term(c, r['ok'])], evals)
         if st['models_ok'] and not err:
